@@ -39,6 +39,20 @@ def gen_cases(tier, rng):
                         w += ospell if x == 'o' else ['-' + x]
                     exp = ('b0=%d;b1=%d;s0=%s' % ('c' in perm, 'e' in perm, 's66' if 'o' in perm else 's-')) if ok else 'reject'
                     cases.append('H:f=0 %s %s exp:%s' % (defs, A.argv_tok(w), exp))
+    # arguments whose cardinality limit was removed (setCardinality( nullptr)) or raised may be given several times
+    for w, exp in ((['-n', '1', '-n', '2'], 'b0=0;i0=2;s0=s-'), (['-n', '1', '--number=2', '-n', '3'], 'b0=0;i0=3;s0=s-'),
+                   (['-s', 'a', '-v', '-s', 'b'], 'b0=1;i0=0;s0=s62'), (['-v', '-v'], 'b0=1;i0=0;s0=s-')):
+        cases.append('H:f=0 arg:n,number:i0:card=none arg:s:s0:card=none arg:v:b0:init=0/card=none %s exp:%s' % (A.argv_tok(w), exp))
+    cases.append('H:f=0 arg:n:i0:card=max~2 arg:s:s0: %s exp:i0=2;s0=s-' % A.argv_tok(['-n', '1', '-n', '2']))
+    cases.append('H:f=0 arg:n:i0:card=range~1~3 arg:s:s0: %s exp:i0=3;s0=s-' % A.argv_tok(['-n', '1', '-n', '2', '-n', '3']))
+    # a value from an argument file stays overridable on the command line, also when the file names a further file
+    # in an earlier line
+    cases.append('H:f=0 arg:n:i0: arg:v:b0:init=0 arg:arg-file:af0: xfile:%s:%s xfile:%s:%s %s exp:b0=1;i0=5'
+                 % (A.hx('outer.pa'), A.hx('--arg-file inner.pa\n-n 3\n'), A.hx('inner.pa'), A.hx('-v\n'),
+                    A.argv_tok(['--arg-file', 'outer.pa', '-n', '5'])))
+    cases.append('H:f=0 arg:n:i0: arg:v:b0:init=0 arg:arg-file:af0: xfile:%s:%s xfile:%s:%s %s exp:b0=1;i0=5'
+                 % (A.hx('outer.pa'), A.hx('-n 3\n--arg-file inner.pa\n-n 4\n'), A.hx('inner.pa'), A.hx('-v\n-n 9\n'),
+                    A.argv_tok(['--arg-file', 'outer.pa', '-n', '5'])))
     guard = 0
     while len(cases) < n and guard < n * 30:
         guard += 1
